@@ -541,6 +541,17 @@ class WriterThread(threading.Thread):
             "Deleted event %s kind=%d pubkey=%s", event.id, event.kind, event.pubkey
         )
 
+    @staticmethod
+    def _d_value(event: Event) -> str:
+        """
+        NIP-33 d value: the value of the first d tag;
+        a missing tag, a tag without value and an empty value are all ""
+        """
+        for tag in event.tags:
+            if tag and tag[0] == "d":
+                return tag[1] if len(tag) > 1 else ""
+        return ""
+
     def _post_save(self, txn, event: Event, counter, log):
         if (
             event.kind
@@ -552,14 +563,8 @@ class WriterThread(threading.Thread):
             or event.is_paramaterized_replaceable
         ):
             saved_id = event.id_bytes
-            event.created_at - 1
-            if event.is_paramaterized_replaceable:
-                try:
-                    d_tag = [tag[1] for tag in event.tags if tag[0] == "d"][0]
-                except IndexError:
-                    d_tag = None
-            else:
-                d_tag = None
+            parameterized = event.is_paramaterized_replaceable
+            d_tag = self._d_value(event) if parameterized else None
 
             # delete older replaceable events
             with INDEXES["authorkinds"].scanner(
@@ -571,9 +576,9 @@ class WriterThread(threading.Thread):
                     if event_id == saved_id:
                         continue
                     candidate = decode_event(get_event_data(txn, event_id))
-                    if d_tag is not None:
-                        if not all(candidate.has_tag("d", d_tag)):
-                            continue
+                    if parameterized and self._d_value(candidate) != d_tag:
+                        # another address: only the same d value is superseded
+                        continue
                     self._delete_event(txn, candidate, log)
                     counter["count"] += 1
 
